@@ -11,11 +11,11 @@
      the generated aggregate it names in pycel.excellib / pycel.lib.stats.
 
    SUM / AVERAGE / COUNT / MAX / MIN / _numerics themselves are generated:
-   Gen/excellib.v (f__numerics, f_sum_) and Gen/stats.v (f_average, f_count,
+   Gen/aggregates.v (f__numerics, f_sum_) and Gen/stats.v (f_average, f_count,
    f_max_, f_min_). *)
 From Coq Require Import ZArith QArith List Bool.
 From PV Require Import Lib.Py.
-From PV Require Gen.excelutil Gen.excellib Gen.stats Gen.excelformula.
+From PV Require Gen.excelutil Gen.aggregates Gen.stats Gen.excelformula.
 Import ListNotations.
 Open Scope Z_scope.
 
@@ -172,7 +172,7 @@ Definition named_aggregate (name : pyval) : option (pyval -> res pyval) :=
   | VStr [99; 111; 117; 110; 116] => Some stats.f_count                 (* count *)
   | VStr [109; 97; 120; 95] => Some stats.f_max_                        (* max_ *)
   | VStr [109; 105; 110; 95] => Some stats.f_min_                       (* min_ *)
-  | VStr [115; 117; 109; 95] => Some excellib.f_sum_                    (* sum_ *)
+  | VStr [115; 117; 109; 95] => Some aggregates.f_sum_                    (* sum_ *)
   | _ => None
   end.
 
